@@ -75,6 +75,7 @@ def foreign_stream(ctx):
             jobs.append(j)
     for i in range(30 if quick else 400):
         jobs.append(foreign_job(random.Random(rng.random()), deep=(i % 4 == 0)))
+    jobs = [x for x in streams.replay_override(ctx, "job", jobs) if "format" in x]
     with ThreadPoolExecutor(max_workers=12) as ex:
         res = list(ex.map(run_job, jobs))
     data = [dict(job=j, out=o, rc=rc, err=e) for j, (o, rc, e) in zip(jobs, res)]
